@@ -3,6 +3,7 @@ package main
 import (
 	"encoding/json"
 	"fmt"
+	"github.com/oapi-codegen/oapi-codegen/v2/pkg/codegen"
 	"net/url"
 	"os"
 	"path/filepath"
@@ -321,6 +322,9 @@ func runC06(ctx *Ctx) error {
 	if err := c06IntCorr(ctx, ctx.N(1500, 20000)); err != nil {
 		return err
 	}
+	if err := c06Extra(ctx); err != nil {
+		return err
+	}
 	if err := c06DateCorr(ctx, ctx.N(1500, 20000)); err != nil {
 		return err
 	}
@@ -363,4 +367,66 @@ func runC06(ctx *Ctx) error {
 func init() {
 	register("c06", runC06)
 	register("gen-c06", genC06)
+}
+
+// c06Extra: two component parameters with the same name and location but another requiredness, used by different
+// operations (each operation gets its own), and an optional deepObject parameter with an unconvertible member.
+func c06Extra(ctx *Ctx) error {
+	kit, err := NewRunKit(ctx.Work + "/c06extra")
+	if err != nil {
+		return err
+	}
+	defer kit.Close()
+	ok := J{"204": J{"description": "d"}}
+	ref := func(n string) []interface{} { return []interface{}{J{"$ref": "#/components/parameters/" + n}} }
+	doc := J{"openapi": "3.0.3", "info": J{"title": "t", "version": "1"}, "paths": J{
+		"/a": J{"get": J{"operationId": "opA", "parameters": ref("LimitOpt"), "responses": ok}},
+		"/b": J{"get": J{"operationId": "opB", "parameters": ref("LimitReq"), "responses": ok}},
+		"/c": J{"get": J{"operationId": "opC", "parameters": []interface{}{J{"name": "filter", "in": "query", "style": "deepObject", "explode": true,
+			"schema": J{"type": "object", "properties": J{"age": J{"type": "integer"}}}}}, "responses": ok}},
+	}, "components": J{"parameters": J{
+		"LimitOpt": J{"name": "limit", "in": "query", "schema": J{"type": "integer"}},
+		"LimitReq": J{"name": "limit", "in": "query", "required": true, "schema": J{"type": "integer"}}}}}
+	var pkgs []*RunPkg
+	for _, fw := range allFrameworks {
+		var cfg codegen.Configuration
+		cfg.Generate.Models = true
+		pkgs = append(pkgs, kit.Add(&RunPkg{Name: "c06x_" + fw, FW: fw, Doc: doc, Cfg: cfg}))
+	}
+	kit.Prepare()
+	cases := []struct {
+		url    string
+		reject bool
+		what   string
+	}{{"http://h/a", false, "optional-component-parameter-absent"}, {"http://h/b", true, "required-component-parameter-absent"}, {"http://h/b?limit=5", false, "required-component-parameter-present"},
+		{"http://h/a?limit=x", true, "optional-component-parameter-malformed"}, {"http://h/c?filter%5Bage%5D=abc", true, "optional-deepobject-member-malformed"}, {"http://h/c?filter%5Bage%5D=5", false, "optional-deepobject-valid"}}
+	for i, p := range pkgs {
+		fw := allFrameworks[i]
+		if p.GenErr != nil || p.BuildErr != "" {
+			ctx.Res.Violate("extra:not-built:"+fw, fmt.Sprintf("not generated or does not build: %v %s", p.GenErr, firstLines(p.BuildErr, 3)), J{"doc": doc, "fw": fw})
+			continue
+		}
+		for _, c := range cases {
+			resp, err := p.Call(J{"do": "serve", "req": J{"method": "GET", "url": c.url}, "opt": J{"stop": -1, "sstop": -1}})
+			if err != nil {
+				return err
+			}
+			ctx.Res.Eval(J{"fw": fw, "extra": c.what}, true)
+			ctx.Res.Count("extra:" + c.what)
+			calls, _ := resp["calls"].([]interface{})
+			ran := len(calls) > 0
+			status, _ := resp["status"].(float64)
+			bad := ""
+			if c.reject && (ran || int(status) != 400) {
+				bad = "the statement requires rejection (no handler, 400)"
+			}
+			if !c.reject && (!ran || int(status) != 204) {
+				bad = "a well-formed request is never rejected"
+			}
+			if bad != "" {
+				ctx.Res.Violate(fmt.Sprintf("extra:%s:%s", fw, c.what), fmt.Sprintf("%s GET %s: handler ran=%v status=%d; %s", fw, c.url, ran, int(status), bad), J{"doc": doc, "fw": fw, "url": c.url, "resp": resp})
+			}
+		}
+	}
+	return nil
 }
